@@ -66,7 +66,7 @@ package jparse
 
 //@ func (*lexer).scanString
 //@   requires lexOK(l) && l.start == l.current && l.err == nil && quote > 0
-//@   ensures lexOK(l) && l.start == l.current
+//@   ensures lexOK(l) && l.start == l.current && l.current >= old(l.current)
 //@   ensures (result.Type == typeString && l.err == nil && l.current > old(l.current)) || (result.Type == typeError && errOK(l.err))
 //@   ensures 0 <= result.Position && result.Position <= l.length
 //@   assigns l.width, l.current, l.start, l.err
@@ -75,7 +75,7 @@ package jparse
 
 //@ func (*lexer).scanEscapedName
 //@   requires lexOK(l) && l.start == l.current && l.err == nil && quote > 0
-//@   ensures lexOK(l) && l.start == l.current
+//@   ensures lexOK(l) && l.start == l.current && l.current >= old(l.current)
 //@   ensures (result.Type == typeNameEsc && l.err == nil && l.current > old(l.current)) || (result.Type == typeError && errOK(l.err))
 //@   ensures 0 <= result.Position && result.Position <= l.length
 //@   assigns l.width, l.current, l.start, l.err
@@ -84,7 +84,7 @@ package jparse
 
 //@ func (*lexer).scanRegex
 //@   requires lexOK(l) && l.start == l.current && l.err == nil && delim > 0
-//@   ensures lexOK(l) && l.start == l.current
+//@   ensures lexOK(l) && l.start == l.current && l.current >= old(l.current)
 //@   ensures (result.Type == typeRegex && l.err == nil && l.current > old(l.current)) || (result.Type == typeError && errOK(l.err))
 //@   ensures 0 <= result.Position && result.Position <= l.length
 //@   assigns l.width, l.current, l.start, l.err
@@ -108,7 +108,7 @@ package jparse
 //@   requires !isWS(runeAt(l.input, l.current)) && !isSym1(runeAt(l.input, l.current))
 //@   ensures lexOK(l) && l.start == l.current && l.err == nil
 //@   ensures [progress] l.current > old(l.current)
-//@   ensures result.Type != typeError && result.Type != typeEOF
+//@   ensures result.Type != typeError && result.Type != typeEOF && boolTok(result)
 //@   ensures 0 <= result.Position && result.Position <= l.length
 //@   assigns l.width, l.current, l.start
 //@   loop 0 invariant lexOK(l) && l.current >= old(l.current)
@@ -124,3 +124,227 @@ package jparse
 //@   ensures 0 <= result.Position && result.Position <= l.length
 //@   assigns l.width, l.current, l.start, l.err
 //@   loop 0 invariant lexOK(l) && l.err == nil && l.current == l.start + widthAt(l.input, l.start) && l.current <= l.length
+//@   ensures l.current >= old(l.current)
+//@   ensures result.Type == typeEOF ==> (old(l.err) != nil || l.current == l.length)
+//@   ensures boolTok(result)
+
+// ---------------------------------------------------------------------------
+// jparse.go: Pratt parser
+
+// The parser's lookup fields always hold the package-level lookup functions (set once in newParser).
+//@ funcfield jparse.parser.lookupNud lookupNud
+//@ funcfield jparse.parser.lookupLed lookupLed
+//@ funcfield jparse.parser.lookupBp lookupBp
+
+// Parser invariant: embedded lexer well-formed and positioned at a token boundary, no pending lexer
+// error (an error token makes advance panic at once), and an EOF token means the input is exhausted.
+//@ pred pOK(p *parser) = p != nil && p.lexer.length == len(p.lexer.input) && 0 <= p.lexer.start && p.lexer.start == p.lexer.current && p.lexer.current <= p.lexer.length && 0 <= p.lexer.width && p.lexer.err == nil && p.token.Type != typeError && boolTok(p.token) && (p.token.Type == typeEOF ==> p.lexer.current == p.lexer.length) && 0 <= p.token.Position && p.token.Position <= p.lexer.length
+
+// Termination measure: twice the unread input plus one for a pending non-EOF token.
+//@ pred mu(p *parser) = 2*(p.lexer.length - p.lexer.current) + b2i(p.token.Type != typeEOF)
+
+//@ func validateBindingPowers
+//@   ensures forall i in [0, ledCount): ((leds[i] == nil ==> bps[i] == 0) && (leds[i] != nil ==> bps[i] != 0))
+//@   panics string
+//@   assigns nothing
+//@   loop 0 invariant 0 <= tt && tt <= ledCount && (forall i in [0, tt): ((leds[i] == nil ==> bps[i] == 0) && (leds[i] != nil ==> bps[i] != 0)))
+
+//@ func initBindingPowers
+//@   requires len(tokenTypes) <= 1000
+//@   requires forall o in [0, len(tokenTypes)): (forall k in [0, len(tokenTypes[o])): tokenTypes[o][k] < ledCount)
+//@   ensures forall i in [0, ledCount): (result[i] >= 0 && (leds[i] == nil ==> result[i] == 0) && (leds[i] != nil ==> result[i] > 0))
+//@   panics string
+//@   assigns nothing
+//@   loop 0 invariant forall i in [0, ledCount): bps[i] >= 0
+//@   loop 1 invariant forall i in [0, ledCount): bps[i] >= 0
+
+//@ func (*parser).advance
+//@   requires pOK(p)
+//@   ensures pOK(p) && same(p.lexer.input, old(p.lexer.input))
+//@   ensures mu(p) <= old(mu(p)) && (old(p.token.Type) != typeEOF ==> mu(p) < old(mu(p)))
+//@   panics *Error
+//@   assigns p.token, p.lexer
+
+//@ func (*parser).consume
+//@   requires pOK(p)
+//@   ensures pOK(p) && same(p.lexer.input, old(p.lexer.input)) && old(p.token.Type) == expected
+//@   ensures mu(p) <= old(mu(p)) && (old(p.token.Type) != typeEOF ==> mu(p) < old(mu(p)))
+//@   panics *Error
+//@   assigns p.token, p.lexer
+
+//@ func (*parser).bp
+//@   requires p != nil
+//@   ensures result >= 0 && (t == typeEOF ==> result == 0) && ((t < ledCount && leds[t] != nil) ==> result > 0)
+//@   assigns nothing
+
+// A nud is only ever called for the token type it is registered for in the nuds table, with a
+// token the lexer produced (a boolean token spells true or false).
+//@ func functype:nud
+//@   requires pOK(arg0)
+//@   requires [dispatch] arg1.Type < nudCount && self == nuds[arg1.Type]
+//@   requires [token] boolTok(arg1) && 0 <= arg1.Position && arg1.Position <= arg0.lexer.length
+//@   ensures pOK(arg0) && mu(arg0) <= old(mu(arg0))
+//@   ensures (r1 == nil && nn(r0)) || (r1 != nil && errOK(r1))
+//@   panics *Error
+//@   decreases[parse] mu(arg0), 3
+//@   assigns arg0.token, arg0.lexer
+
+//@ func functype:led
+//@   requires pOK(arg0) && nn(arg2)
+//@   requires [dispatch] arg1.Type < ledCount && self == leds[arg1.Type]
+//@   requires [token] 0 <= arg1.Position && arg1.Position <= arg0.lexer.length
+//@   ensures pOK(arg0) && mu(arg0) <= old(mu(arg0))
+//@   ensures (r1 == nil && nn(r0)) || (r1 != nil && errOK(r1))
+//@   panics *Error
+//@   decreases[parse] mu(arg0), 4
+//@   assigns arg0.token, arg0.lexer
+
+// Printing a node reads the tree only.
+//@ func iface:Node.String
+//@   pure
+
+//@ pred nn(n Node) = n != nil && payload(n) != 0
+//@ pred boolTok(t token) = t.Type == typeBoolean ==> (streq(t.Value, "true") || streq(t.Value, "false"))
+
+//@ func (*parser).parseExpression
+//@   requires pOK(p) && rbp >= 0
+//@   ensures pOK(p) && nn(result) && mu(p) < old(mu(p))
+//@   panics *Error
+//@   decreases[parse] mu(p), 0
+//@   assigns p.token, p.lexer
+//@   loop 0 invariant pOK(p) && nn(lhs) && mu(p) < old(mu(p))
+//@   loop 0 decreases mu(p)
+
+// ---------------------------------------------------------------------------
+// node.go: nud / led functions. Each must satisfy the function-type contract
+// (parser invariant kept, measure not increased, typed error or non-nil node).
+
+//@ func parseString
+//@   implements functype:nud
+//@ func parseNumber
+//@   implements functype:nud
+//@ func parseBoolean
+//@   implements functype:nud
+//@ func parseNull
+//@   implements functype:nud
+//@ func parseRegex
+//@   implements functype:nud
+//@ func parseVariable
+//@   implements functype:nud
+//@ func parseName
+//@   implements functype:nud
+//@ func parseEscapedName
+//@   implements functype:nud
+//@ func parseWildcard
+//@   implements functype:nud
+//@ func parseDescendent
+//@   implements functype:nud
+//@ func parseNegation
+//@   implements functype:nud
+//@ func parseObjectTransformation
+//@   implements functype:nud
+//@ func parseArray
+//@   implements functype:nud
+//@   loop 0 invariant pOK(p) && mu(p) <= old(mu(p)) && (items == nil || fresh(items)) && frame(items)
+//@   loop 0 decreases mu(p)
+//@ func parseObject
+//@   implements functype:nud
+//@   ensures r1 == nil ==> typeis(r0, "*ObjectNode")
+//@   loop 0 invariant pOK(p) && mu(p) <= old(mu(p)) && (pairs == nil || fresh(pairs)) && frame(pairs)
+//@   loop 0 decreases mu(p)
+//@ func parseBlock
+//@   implements functype:nud
+//@   loop 0 invariant pOK(p) && mu(p) <= old(mu(p)) && (exprs == nil || fresh(exprs)) && frame(exprs)
+//@   loop 0 decreases mu(p)
+
+//@ func parseFunctionCall
+//@   implements functype:led
+//@   loop 0 invariant pOK(p) && mu(p) <= old(mu(p)) && (args == nil || fresh(args)) && frame(args)
+//@   loop 0 decreases mu(p)
+//@ func parsePredicate
+//@   implements functype:led
+//@ func parseGroup
+//@   implements functype:led
+//@ func parseConditional
+//@   implements functype:led
+//@ func parseAssignment
+//@   implements functype:led
+//@ func parseFunctionApplication
+//@   implements functype:led
+//@ func parseStringConcatenation
+//@   implements functype:led
+//@ func parseSort
+//@   implements functype:led
+//@   loop 0 invariant pOK(p) && mu(p) <= old(mu(p)) && (terms == nil || fresh(terms)) && frame(terms)
+//@   loop 0 decreases mu(p)
+//@ func parseDot
+//@   implements functype:led
+//@ func parseNumericOperator
+//@   implements functype:led
+//@ func parseComparisonOperator
+//@   implements functype:led
+//@ func parseBooleanOperator
+//@   implements functype:led
+
+//@ func parseLambdaDefinition
+//@   requires pOK(p)
+//@   ensures pOK(p) && mu(p) <= old(mu(p))
+//@   ensures (r1 == nil && nn(r0)) || (r1 != nil && errOK(r1))
+//@   panics *Error
+//@   decreases[parse] mu(p), 2
+//@   assigns p.token, p.lexer
+
+//@ func extractParamNames
+//@   requires pOK(p)
+//@   ensures pOK(p) && mu(p) <= old(mu(p))
+//@   ensures r1 == nil || errOK(r1)
+//@   panics *Error
+//@   decreases[parse] mu(p), 1
+//@   assigns p.token, p.lexer
+//@   loop 0 invariant pOK(p) && mu(p) <= old(mu(p)) && (names == nil || fresh(names)) && frame(names) && fresh(usedNames) && frame(usedNames)
+//@   loop 0 decreases mu(p)
+
+//@ func extractSignature
+//@   requires pOK(p)
+//@   ensures pOK(p) && mu(p) <= old(mu(p))
+//@   panics *Error
+//@   assigns p.token, p.lexer
+//@   loop 0 invariant pOK(p) && mu(p) <= old(mu(p)) && depth >= 1 && depth <= 1 + (p.lexer.current - old(p.lexer.current))
+//@   loop 0 decreases mu(p)
+
+// ---------------------------------------------------------------------------
+// node.go: lambda signatures and string escapes
+
+//@ func parseParamType
+//@   pure
+//@ func parseParamOpt
+//@   pure
+
+//@ func getBracketedString
+//@   requires 0 <= open && open < 128
+//@   ensures len(result) == 0 || len(result) + 2 <= len(s)
+//@   assigns nothing
+//@   loop 0 invariant 0 <= depth && depth <= $pos && ($pos > 0 ==> depth >= 1)
+
+//@ func parseParams
+//@   ensures (r1 == nil) || errOK(r1)
+//@   decreases[params] len(s), 0
+//@   assigns nothing
+//@   loop 0 invariant len(s) <= len(old(s)) && same(s, old(s)[len(old(s))-len(s):]) && fresh(params) && frame(params)
+//@   loop 0 decreases len(s)
+
+//@ func parseRune
+//@   ensures -2147483648 <= result && result <= 2147483647
+//@   assigns nothing
+
+//@ func decodeRunes
+//@   requires 0 <= n && n <= 64
+//@   ensures 0 <= r1 && r1 <= len(s) && n <= len(r0) && len(r0) <= 4*n
+//@   assigns nothing
+//@   loop 0 invariant 0 <= pos && pos <= len(s) && frame(runes)
+
+//@ func unescape
+//@   decreases[unescape] len(src), 0
+//@   assigns nothing
+
+// END OF CONTRACTS (package jparse)
